@@ -63,6 +63,11 @@ fn main() {
         .ok()
         .and_then(|s| s.parse::<u64>().ok())
         .unwrap_or(0);
+    if std::env::var("PMC_DEEP").map(|v| v == "1").unwrap_or(false) {
+        // no evidence is written by this pass either
+        engine::LITE.store(true, std::sync::atomic::Ordering::Relaxed);
+        engine::DEEP.store(true, std::sync::atomic::Ordering::Relaxed);
+    }
     if std::env::var("PMC_LITE").map(|v| v == "1").unwrap_or(false) {
         engine::LITE.store(true, std::sync::atomic::Ordering::Relaxed);
     }
